@@ -53,7 +53,7 @@ CHECKS = {
    note="only map iteration order is behind the seam; addresses, goroutines and time are covered by repeat/cross-process comparison only; pointer/interface keys get first-store serial numbers as canonical order (nonreplayable_keys probe must be 0)", ref="DESIGN.md section 4 C27"),
  "C28": dict(level="exploration", technique="deterministic simulation of concurrent API callers: every scenario runs in its own cold OS process under a token scheduler with seeded PCT pre-emption points over ~4600 AST-inserted yield points (every statement touching a package-level variable and every function entry on the API path, 300 rewritten files), simulator-aware Mutex/RWMutex/Once, canonical map order for exact replay, and a vector-clock happens-before monitor over every map access; oracle = each call's result equals its solo result in a cold process; shrunk replayable tapes",
    text="Seeded search over caller/call mixes (build, run, format, syntax detection on well-typed, ill-typed and unparsable .wa/.wz programs, with default configurations or clones of one shared base configuration with different targets) and pre-emption placements: uniform over all yields, over the 'interesting' yields (writes of package-level variables, lock boundaries), per interesting site, and systematic lock-window sweeps. A call whose result differs from the same call run alone, a panic, a scheduler-detected deadlock, a dead child process, or two happens-before-unordered accesses to one Go map (one a write) by different callers is a violation. The sequential run of each scenario in one process is checked against the solo results as well. Evidence, not proof.",
-   note="interleavings at yield granularity (package-level variable accesses and function entries); the vendored wazero engine and the standard library run atomically; memory-model races on non-map data that change no result are out of reach and are not reported", ref="DESIGN.md section 4 C28"),
+   note="interleavings at yield granularity (statements touching package-level variables, function entries, lock boundaries, and the point right after a call that receives package-level storage by reference); the vendored wazero engine and the standard library run atomically; memory-model races on non-map data that change no result are out of reach and are not reported", ref="DESIGN.md section 4 C28"),
 }
 ORDER = ["C10","C11","C12","C13","C21","C25","C26","C27","C28"]
 m = {
